@@ -51,7 +51,7 @@ def make(rng, tier, tied_stratum=None, large=None):
     D = int(rng.integers(2, 5))
     N = 4 * K * D + int(rng.integers(0, 12))
     if large:
-        K, D, N = 2, 3, int(rng.integers(18000, 36000))       # a long recording (one slice)
+        K, D, N = 2, 3, int(rng.choice([16384, 32768])) + int(rng.integers(9000, 15000))       # a long recording (one slice)
     if name == 'gcacgmm':
         lead = (int(rng.integers(1, 3)),)
     else:
@@ -63,8 +63,9 @@ def make(rng, tier, tied_stratum=None, large=None):
     data = mm.make_data(rng, name, K, D, N, lead, separation=float(rng.choice([1.0, 2.5, 5.0])))
     if large:
         # the scene changes late in the recording (sources move): the last quarter comes from other class parameters
-        tail = mm.make_data(rng, name, K, D, N // 4, lead, separation=float(rng.choice([1.0, 2.5, 5.0])))
-        data = {k_: (np.concatenate([v[..., : N - N // 4, :], tail[k_]], axis=-2) if k_ != 'labels' else v)
+        nt_ = N % 16384
+        tail = mm.make_data(rng, name, K, D, nt_, lead, separation=float(rng.choice([1.0, 2.5, 5.0])))
+        data = {k_: (np.concatenate([v[..., : N - nt_, :], tail[k_]], axis=-2) if k_ != 'labels' else v)
                 for k_, v in data.items()}
     init = mm.make_init(rng, K, N, lead, 'positive')
     _COUNT[0] += 1
@@ -181,8 +182,8 @@ def cases(rng, tier):
     out = [make(rng, tier) for _ in range(n)]
     for i in range(8 if tier == 'quick' else 60):
         out.append(make(rng, tier, tied_stratum=['cacgmm', 'cwmm', 'gmm', 'gcacgmm'][i % 4]))
-    for i in range(3 if tier == 'quick' else 12):
-        out.append(make(rng, tier, large=['cacgmm', 'gmm', 'cwmm', 'gcacgmm'][i % 4]))
+    for i in range(4 if tier == 'quick' else 15):
+        out.append(make(rng, tier, large=['cacgmm', 'gmm', 'cacgmm', 'cwmm', 'gcacgmm'][i % 5]))
     return out
 
 
